@@ -444,6 +444,8 @@ class Folder:
             if isinstance(obj, Rec) and t.attr == "__dict__" and isinstance(v, dict):
                 obj.fields.clear()
                 obj.fields.update(v)
+            elif isinstance(obj, Rec) and t.attr in (getattr(self, "inherited_props", None) or {}) and t.attr not in obj.fields:
+                self.inherited_props[t.attr][1](obj, v)          # a property the class inherits from a third-party base: the rule's model of its setter
             elif isinstance(obj, Rec):
                 obj.fields[t.attr] = v
             elif getattr(obj, "_sa_model", False):
@@ -506,6 +508,8 @@ class Folder:
             if isinstance(base, Rec):
                 if e.attr in base.fields:
                     return base.fields[e.attr]
+                if e.attr in (getattr(self, "inherited_props", None) or {}):
+                    return self.inherited_props[e.attr][0](base)
                 cv = getattr(base, "cls_val", None)
                 if cv is not None and e.attr in cv.properties:
                     return self.call_funcval(FuncVal(cv.properties[e.attr], closure=None, bound_self=base, home=(cv.method_home or {}).get(e.attr, cv.home)), [], {})
@@ -884,6 +888,7 @@ class Folder:
         sub.generic_symbols = getattr(self, "generic_symbols", False)
         sub.real_arrays = getattr(self, "real_arrays", False)
         sub.inherited_dunders = getattr(self, "inherited_dunders", None)
+        sub.inherited_props = getattr(self, "inherited_props", None)
         fa = fv.node.args
         names = [a.arg for a in fa.posonlyargs + fa.args]
         args = list(args)
